@@ -86,6 +86,16 @@ prop("C10", "exploration", "MMIO bus trace (safe-mmio custom-mmio backend) check
      "Non-trivial: at least one bus access or a refusal was observed (always). distinct: 64-bit key of (seed, case number) which determines all generated inputs; counts of checked operations per kind are in observed.op_*.",
      [stage("checked")], [stage("checked"), stage("release", scale=200)])
 
+prop("C12", "exploration", "reference PCI function model behind ConfigurationAccess logging every config read/write with the decode state; exhaustive CAM address enumeration",
+     "bar_info/bars run against a PCI function model with per-BAR writable-bit masks, hard-wired type bits, 64-bit pairs and a command register with a write mask; the model flags any BAR write that changes the assigned value while the matching decode bit is set, "
+     "and command and all six BAR registers are compared with their original values after every call; results are compared with the BAR the model was built from. cam_offset is enumerated over all 4,194,304 tuples x 2 mechanisms (formula, range, alignment, injectivity bitmap) and through the real MmioCam on the MMIO bus; "
+     "enumerate_bus and capabilities() are compared with randomly populated buses / well-formed capability lists.",
+     "BAR sizes, addresses and bus populations are sampled (every slot, every power-of-two size class, all 2^10 combinations of the defined command bits by case number, plus functions that implement command bit 7); cyclic capability lists are not generated. Upper halves of 64-bit BARs are never queried directly (caller contract of bars()).",
+     "a case is (i) one PCI function with six generated BARs (unimplemented / mem32 / below-1MiB / mem64 up to 2^63 / I/O 32- and 16-bit decode / reserved type, 64-bit in slot 5) and an initial command value, probed with bar_info on every slot or with bars(); "
+     "(ii) one capability list (0..12 entries) + one bus population (random subset of 256 functions with random identity fields); (iii) one MmioCam (CAM or ECAM) exercised with 64 register reads; (iv) one exhaustive cam_offset enumeration per mechanism. "
+     "Non-trivial: always (a result or a refusal is compared). distinct: key of (kind, seed, case number), which determines the generated inputs.",
+     [stage("checked")], [stage("checked"), stage("release", scale=200)])
+
 NOT_YET = {}
 import re
 props = [json.loads(l) for l in open(os.path.join(ROOT, "properties.jsonl"))]
@@ -133,6 +143,7 @@ def main():
     print("wrote plan.json, MANIFEST.json:", len(checks), "checks,", len(NOT_YET), "not_applicable")
 
 HOOK_COMMITS = ["3c7b69a"]
+FIX_COMMITS = ["0598fcf", "bc247e1", "811bf5f", "d0efe8d"]
 
 if __name__ == "__main__":
     main()
